@@ -31,6 +31,11 @@ def gen_pattern(rng, base=None):
     s = "".join(p)
     if rng.random() < 0.15:
         s = s.lower()
+    if rng.random() < 0.04:
+        # eight characters that are not all hex digits or '*' (but that a lenient number parser would accept): never a match
+        k = rng.randrange(1, 7)
+        s = rng.choice([" " + s[1:], s[:7] + " ", "0x" + s[2:], "0X" + s[2:], s[:k] + "_" + s[k + 1:], "\t" + s[1:]])
+        return s
     if rng.random() < 0.06 and "*" not in s:
         # not exactly eight characters: such an entry can never match a PTE (e.g. a typo that lost the leading zero)
         s = rng.choice([s[1:] if s[0] == "0" else s[:7], "0" + s, "0" + s[1:7], s + "0"])
@@ -67,7 +72,10 @@ def pte_for(rng, table):
     if table and r < 0.7:
         pat = rng.choice(table)[0].upper()
         s = "".join(c if c != "*" else rng.choice(HEX) for c in pat)
-        v = int(s, 16) & 0xFFFFFFFF
+        try:
+            v = int(s, 16) & 0xFFFFFFFF          # (also what a lenient parser makes of ' 1040000', '0x0200AB', 'E208_690')
+        except ValueError:
+            v = int("".join(c if c in "0123456789abcdefABCDEF" else "0" for c in s), 16)
         rr = rng.random()
         if rr < 0.3:
             v |= 0x00040000                    # reported flag on
@@ -126,6 +134,8 @@ def gen_strings(rng, n=None):
         else:
             h = rng.randrange(1 << 32)
         out.append((h, rng.choice(TRACE_MSGS), "file%d.cpp(%d)" % (k % 5, rng.randrange(1, 2000))))
+        if len(out) >= 3 and rng.random() < 0.1:
+            out.append(rng.choice(out[:-1]))          # the very same line once more (the LAST candidate decides a partial match)
     return out
 
 
